@@ -55,66 +55,6 @@ type huPath struct {
 	errRet  *Term
 }
 
-// handleUpdateTable composes handleUpdate's paths with an Update outcome class and returns the matching paths.
-func matchHandleUpdate(w *World, r *Run, rule string, sums []Summary, upd Event, o updOutcome) ([]Summary, bool) {
-	trusted, uerr := res(upd, 0), res(upd, 1)
-	var out []Summary
-	for _, s := range sums {
-		ok := true
-		for _, f := range s.Facts {
-			t := f.T
-			switch {
-			case t.Kind == "binop" && t.Name == "==" && (t.Args[0] == trusted || t.Args[1] == trusted) && (t.Args[0].Kind == "nil" || t.Args[1].Kind == "nil"):
-				if f.Pos != (o.bytes == "nil") {
-					ok = false
-				}
-			case t.Kind == "binop" && t.Name == "==" && (t.Args[0] == uerr || t.Args[1] == uerr):
-				other := t.Args[0]
-				if other == uerr {
-					other = t.Args[1]
-				}
-				switch other.Kind {
-				case "nil":
-					if f.Pos != (o.err == "nil") {
-						ok = false
-					}
-				case "global":
-					if f.Pos != (o.err == other.Name) {
-						ok = false
-					}
-				default:
-					r.Undecided(rule, fnHandleUpdate+" | comparison of the update error", w.pos(f.At), "update error compared with "+short(other.String()))
-					return nil, false
-				}
-			case t.Kind == "call" && t.Name == cErrorsIs && len(t.Args) == 4 && t.Args[2] == uerr && t.Args[3].Kind == "global":
-				if f.Pos != (o.err == t.Args[3].Name) {
-					ok = false
-				}
-			case t.Kind == "binop" && t.Name == "==" && (t.Args[0].Kind == "nil" || t.Args[1].Kind == "nil"):
-				// error of another call (ParseCheckpoint of the trusted bytes): fault arm unless nil
-				other := t.Args[0]
-				if other.Kind == "nil" {
-					other = t.Args[1]
-				}
-				if other.Kind == "call" && other.Name == cParse {
-					if !f.Pos {
-						ok = false // the witness's own cosigned checkpoint opens under its verifier (trusted)
-					}
-				} else {
-					r.Undecided(rule, fnHandleUpdate+" | unrecognised predicate", w.pos(f.At), "branch on "+short(t.String()))
-					return nil, false
-				}
-			default:
-				r.Undecided(rule, fnHandleUpdate+" | unrecognised predicate", w.pos(f.At), "branch on "+short(t.String()))
-				return nil, false
-			}
-		}
-		if ok {
-			out = append(out, s)
-		}
-	}
-	return out, true
-}
 
 func constInt(t *Term) (string, bool) {
 	if t != nil && t.Kind == "const" {
@@ -134,397 +74,8 @@ var wantStatus = map[string]string{
 	"other-error":                      "500",
 }
 
-// C10.a STATUS-TABLE (composition of Update's outcome classes with handleUpdate's paths)
-func ruleStatusTable(w *World, r *Run, a *updAnalysis, rule string) {
-	if !a.guard(r, rule) {
-		return
-	}
-	sums, e, ok := explore(w, r, rule, fnHandleUpdate, 4, 1)
-	if !ok {
-		return
-	}
-	fn := w.fn(fnHandleUpdate)
-	var upd *Event
-	for _, s := range sums {
-		for _, ev := range calls(s, cFeederUpdate) {
-			ev := ev
-			upd = &ev
-		}
-	}
-	if upd == nil {
-		r.Undecided(rule, fnHandleUpdate, w.pos(fn.Pos()), "no call of the witness's Update found")
-		return
-	}
-	origin := paramN(fn, 2)
-	recv := recvParam(fn)
-	for _, o := range updateOutcomes(a) {
-		key := fmt.Sprintf("%s | Update outcome (%s, %s bytes)", fnHandleUpdate, shortGlobal(o.err), o.bytes)
-		want, known := wantStatus[o.err]
-		if !known {
-			want = "500"
-		}
-		ms, ok := matchHandleUpdate(w, r, rule, sums, *upd, o)
-		if !ok {
-			return
-		}
-		if len(ms) != 1 {
-			r.Fail(rule, key, w.pos(fn.Pos()), fmt.Sprintf("%d paths of handleUpdate answer this outcome, want exactly one", len(ms)))
-			continue
-		}
-		s := ms[0]
-		if len(s.Rets) != 4 {
-			r.Fail(rule, key, w.pos(s.RetPos), "unexpected return arity")
-			continue
-		}
-		status, isConst := constInt(s.Rets[0])
-		if s.Rets[3].Kind != "nil" {
-			status, isConst = "500", true // ServeHTTP answers 500 when handleUpdate returns an error (checked in C10.c)
-		}
-		if !isConst {
-			r.Undecided(rule, key, w.pos(s.RetPos), "status is not a constant: "+short(s.Rets[0].String()))
-			continue
-		}
-		if status != want {
-			r.Fail(rule, key, w.pos(s.RetPos), fmt.Sprintf("the endpoint answers %s when the witness's verdict is (%s, %s bytes); the protocol says %s; path: %s", status, shortGlobal(o.err), o.bytes, want, pathString(e, s)))
-			continue
-		}
-		// stale: content type and body = "%d\n" of the size of the checkpoint parsed from the trusted bytes
-		if o.err == pWitness+".ErrCheckpointStale" {
-			ct, _ := constInt(s.Rets[2])
-			var pc *Event
-			for _, pe := range calls(s, cParse) {
-				pe := pe
-				if len(pe.Args) == 4 && pe.Args[0] == res(*upd, 0) && pe.Args[1] == origin && okBefore(s, pe, 0) {
-					pc = &pe
-				}
-			}
-			good := ct == "\"text/x.tlog.size\"" && pc != nil
-			if good {
-				size := sizeOf(res(*pc, 0))
-				body := s.Rets[1]
-				good = false
-				for _, sp := range calls(s, "fmt.Sprintf", "fmt.Appendf") {
-					if mentions(body, sp.Res) {
-						var fmtArg, va *Term
-						for _, x := range sp.Args {
-							if x != nil && x.Kind == "const" && strings.HasPrefix(x.Name, "\"") {
-								fmtArg = x
-							}
-							if x != nil && x.Kind == "varargs" {
-								va = x
-							}
-						}
-						if fmtArg != nil && fmtArg.Name == "\"%d\\n\"" && va != nil && len(va.Args) == 1 && va.Args[0] == size {
-							good = true
-						}
-					}
-				}
-				for _, sp := range calls(s, "strconv.FormatUint") {
-					if mentions(body, sp.Res) && len(sp.Args) == 2 && sp.Args[0] == size {
-						good = true
-					}
-				}
-			}
-			if !good {
-				r.Fail(rule, key+" | size body", w.pos(s.RetPos), "409 for a stale old size must carry Content-Type text/x.tlog.size and the decimal size of the witness's current checkpoint followed by a newline")
-				continue
-			}
-		} else if o.err != "nil" && s.Rets[3].Kind == "nil" {
-			ct, _ := constInt(s.Rets[2])
-			if ct == "\"text/x.tlog.size\"" {
-				r.Fail(rule, key+" | content type", w.pos(s.RetPos), "text/x.tlog.size content type on a verdict other than stale old size")
-				continue
-			}
-		}
-		if o.err == "nil" && o.bytes != "cosigned" {
-			r.Fail("C10.d", fnHandleUpdate+" | 200 carries a cosignature made over the submitted text", w.pos(s.RetPos), "the witness can report acceptance while returning "+o.bytes+" bytes (not the cosignature it just made over the submitted note): the endpoint's 200 body would be a signature line that does not verify over the submitted checkpoint")
-			continue
-		}
-		if o.err == "nil" {
-			// C10.d BODY-PROVENANCE
-			var pc *Event
-			for _, pe := range calls(s, cParse) {
-				pe := pe
-				if len(pe.Args) == 4 && pe.Args[0] == res(*upd, 0) && pe.Args[1] == origin && pe.Args[2] == fieldByType(recv, "note.Verifier") && okBefore(s, pe, 0) {
-					pc = &pe
-				}
-			}
-			good := pc != nil
-			if good {
-				sigs := mk("field", "Sigs", 0, nil, res(*pc, 2))
-				good = anySub(s.Rets[1], func(t *Term) bool { return t.Kind == "field" && t.Name == "Base64" && mentions(t, sigs) }) &&
-					anySub(s.Rets[1], func(t *Term) bool { return t.Kind == "field" && t.Name == "Name" && mentions(t, sigs) })
-				// nothing else of the note but verified signatures
-				if anySub(s.Rets[1], func(t *Term) bool { return t.Kind == "field" && t.Name == "UnverifiedSigs" }) {
-					good = false
-				}
-			}
-			if !good {
-				r.Fail("C10.d", fnHandleUpdate+" | 200 body = signature line(s) verified under the witness's own verifier", w.pos(s.RetPos), "the 200 body is not built from the signatures that note.Open verified under the witness verifier on the bytes Update returned: "+short(s.Rets[1].String()))
-				continue
-			}
-			r.Pass("C10.d", fnHandleUpdate+" | 200 body = signature line(s) verified under the witness's own verifier", w.pos(s.RetPos), "")
-		}
-		r.Pass(rule, key, w.pos(s.RetPos), "")
-		r.Sample(map[string]string{"update_outcome": shortGlobal(o.err) + "/" + o.bytes, "status": status, "return_at": w.pos(s.RetPos)})
-	}
-	// Update is called with handleUpdate's own parameters, unmodified
-	wantArgs := []*Term{paramN(fn, 0), paramN(fn, 1), paramN(fn, 3), paramN(fn, 4), paramN(fn, 5)}
-	good := len(upd.Args) == 5 && upd.Recv == fieldByType(recv, "feeder.Witness")
-	if good {
-		for i := range wantArgs {
-			if upd.Args[i] != wantArgs[i] {
-				good = false
-			}
-		}
-	}
-	r.Check(good, "C10.e", fnHandleUpdate+" | Update(ctx, logID, oldSize, checkpoint, proof) passed through", w.pos(upd.Pos), "handleUpdate alters the arguments it hands to the witness: "+short(fmt.Sprint(upd.Args)))
-}
 
-// C09.b SENTINEL-EXHAUSTIVE
-func ruleSentinelExhaustive(w *World, r *Run, a *updAnalysis, rule string) {
-	if !a.guard(r, rule) {
-		return
-	}
-	sums, _, ok := explore(w, r, rule, fnHandleUpdate, 4, 1)
-	if !ok {
-		return
-	}
-	var upd *Event
-	for _, s := range sums {
-		for _, ev := range calls(s, cFeederUpdate) {
-			ev := ev
-			upd = &ev
-		}
-	}
-	if upd == nil {
-		r.Undecided(rule, fnHandleUpdate, "", "no call of Update found")
-		return
-	}
-	uerr := res(*upd, 1)
-	sentinels := map[string]bool{}
-	for _, v := range a.paths {
-		if len(v.s.Rets) == 2 && v.s.Rets[1].Kind == "global" {
-			sentinels[v.s.Rets[1].Name] = true
-		}
-		// a wrapped sentinel would need errors.Is on the caller side
-		if len(v.s.Rets) == 2 && v.s.Rets[1].Kind == "call" && v.s.Rets[1].Name == cErrorf {
-			for _, x := range v.s.Rets[1].Args[2:] {
-				if x != nil && anySub(x, func(t *Term) bool { return t.Kind == "global" && strings.HasPrefix(t.Name, pWitness+".Err") }) {
-					r.Fail(rule, fnUpdate+" | sentinels returned by identity", w.pos(v.s.RetPos), "Update wraps a sentinel error; callers compare by identity")
-				}
-			}
-		}
-	}
-	var names []string
-	for n := range sentinels {
-		names = append(names, n)
-	}
-	sort.Strings(names)
-	if len(names) < 4 {
-		r.Undecided(rule, fnUpdate+" | sentinels", "", fmt.Sprintf("only %d sentinel outcomes found", len(names)))
-	}
-	for _, n := range names {
-		handled := false
-		for _, s := range sums {
-			g := mk("global", n, 0, nil)
-			if k, v, _ := eqFact(s, uerr, g); k && v && len(s.Rets) == 4 && s.Rets[3].Kind == "nil" {
-				handled = true
-			}
-			for _, ie := range calls(s, cErrorsIs) {
-				if len(ie.Args) == 2 && ie.Args[0] == uerr && ie.Args[1].Kind == "global" && ie.Args[1].Name == n {
-					if k, v, _ := boolFact(s, ie.Res); k && v && s.Rets[3].Kind == "nil" {
-						handled = true
-					}
-				}
-			}
-		}
-		r.Check(handled, rule, fnHandleUpdate+" | case for "+shortGlobal(n), w.pos(w.fn(fnHandleUpdate).Pos()), "Update can return "+shortGlobal(n)+" but the endpoint has no case for it (it would answer 500)")
-	}
-}
 
-// C10.b RATE-LIMIT-FIRST, C10.c EXACTLY-ONE-STATUS, C10.e PRE-CHECKS over ServeHTTP
-func ruleServeHTTP(w *World, r *Run, ruleB, ruleC, ruleE string) {
-	sums, e, ok := exploreOpaque(w, r, ruleC, fnServeHTTP, 4, 1, fnParseBody, fnHandleUpdate)
-	if !ok {
-		return
-	}
-	fn := w.fn(fnServeHTTP)
-	recv := recvParam(fn)
-	rw := paramN(fn, 0)
-	req := paramN(fn, 1)
-	limiter := fieldByType(recv, "*rate.Limiter")
-	allowed := map[string]bool{"200": true, "400": true, "403": true, "404": true, "409": true, "422": true, "429": true, "500": true}
-	// statuses handleUpdate can hand over with a nil error
-	huStatuses := map[string]bool{}
-	if hs, _, ok := explore(w, r, ruleC, fnHandleUpdate, 4, 1); ok {
-		for _, s := range hs {
-			if len(s.Rets) == 4 && s.Rets[3].Kind == "nil" {
-				if c, ok := constInt(s.Rets[0]); ok {
-					huStatuses[c] = true
-				} else {
-					r.Undecided(ruleC, fnHandleUpdate+" | constant status", w.pos(s.RetPos), "non-constant status "+short(s.Rets[0].String()))
-				}
-			}
-		}
-	}
-	n429, nPre := 0, 0
-	for _, s := range sums {
-		if s.Panic {
-			r.Fail(ruleC, fnServeHTTP+" | no panic", w.pos(s.RetPos), "explicit panic on a request path")
-			continue
-		}
-		al := calls(s, cAllow)
-		pb := calls(s, fnParseBody)
-		hu := calls(s, fnHandleUpdate)
-		whs := calls(s, cWriteHeader, "net/http.Error")
-		writes := calls(s, cRWWrite)
-		// ---- C10.c
-		key := fnServeHTTP + " | exactly one documented status on every path"
-		switch {
-		case len(whs) != 1:
-			r.Fail(ruleC, key, w.pos(s.RetPos), fmt.Sprintf("%d status writes on this path (a path without WriteHeader answers an implicit 200; two are a superfluous WriteHeader); path: %s", len(whs), pathString(e, s)))
-		default:
-			wh := whs[0]
-			arg := wh.Args[len(wh.Args)-1]
-			good := wh.Recv == rw || (wh.Callee == "net/http.Error" && wh.Args[0] == rw)
-			if c, ok := constInt(arg); ok {
-				good = good && allowed[c]
-			} else if len(hu) == 1 && arg == res(hu[0], 0) {
-				// status chosen by handleUpdate: only on its err == nil arm
-				good = good && okBefore(s, hu[0], wh.Seq)
-				for c := range huStatuses {
-					if !allowed[c] {
-						good = false
-					}
-				}
-			} else {
-				good = false
-			}
-			for _, wr := range writes {
-				if wr.Seq < wh.Seq {
-					good = false
-				}
-			}
-			r.Check(good, ruleC, key, w.pos(wh.Pos), "status written is "+short(arg.String())+": not one of the documented codes, written to something other than the response, or preceded by a body write")
-		}
-		if len(hu) == 1 && failed(s, hu[0]) {
-			c := ""
-			if len(whs) == 1 {
-				c, _ = constInt(whs[0].Args[len(whs[0].Args)-1])
-			}
-			r.Check(c == "500", ruleC, fnServeHTTP+" | handleUpdate error answered 500", w.pos(s.RetPos), "an internal error of handleUpdate is answered "+c)
-		}
-		// body written is the body handleUpdate produced
-		for _, wr := range writes {
-			r.Check(len(hu) == 1 && wr.Args[0] == res(hu[0], 1), ruleC, fnServeHTTP+" | body = handleUpdate's body", w.pos(wr.Pos), "response body is not the one computed for the verdict")
-		}
-		// content type header value comes from handleUpdate
-		for _, hd := range calls(s, "(net/http.Header).Add", "(net/http.Header).Set") {
-			if len(hd.Args) == 2 {
-				if k, _ := constInt(hd.Args[0]); k == "\"Content-Type\"" {
-					r.Check(len(hu) == 1 && hd.Args[1] == res(hu[0], 2), ruleC, fnServeHTTP+" | content type = handleUpdate's", w.pos(hd.Pos), "Content-Type is not the one computed for the verdict")
-				}
-			}
-		}
-		// ---- C10.b
-		keyB := fnServeHTTP + " | limiter consulted before the body is read"
-		if len(al) != 1 || al[0].Recv != limiter {
-			r.Fail(ruleB, keyB, w.pos(s.RetPos), "path does not consult the configured rate limiter exactly once")
-			continue
-		}
-		k, allowedNow, _ := boolFact(s, al[0].Res)
-		if !k {
-			r.Fail(ruleB, keyB, w.pos(al[0].Pos), "limiter verdict ignored")
-			continue
-		}
-		if !allowedNow {
-			n429++
-			c := ""
-			if len(whs) == 1 {
-				c, _ = constInt(whs[0].Args[len(whs[0].Args)-1])
-			}
-			clean := len(pb) == 0 && len(hu) == 0 && len(calls(s, cFeederUpdate)) == 0
-			for _, ev := range s.Events {
-				if ev.Kind == "call" && !ev.AtExit && ev.Recv != nil && mentions(ev.Recv, mk("field", "Body", 0, nil, req)) {
-					clean = false
-				}
-				for _, x := range ev.Args {
-					if ev.Kind == "call" && !ev.AtExit && x != nil && mentions(x, mk("field", "Body", 0, nil, req)) {
-						clean = false
-					}
-				}
-			}
-			r.Check(c == "429" && clean, ruleB, fnServeHTTP+" | over-rate request answered 429 without being processed", w.pos(s.RetPos), "a request over the configured rate is answered "+c+" or is parsed/processed before being pushed back")
-			continue
-		}
-		for _, x := range append(append([]Event(nil), pb...), hu...) {
-			r.Check(al[0].Seq < x.Seq, ruleB, keyB, w.pos(x.Pos), short(x.Callee)+" runs before the rate limiter was consulted")
-		}
-		// ---- C10.e PRE-CHECKS
-		if len(pb) != 1 || pb[0].Args[0] != mk("field", "Body", 0, nil, req) {
-			r.Fail(ruleE, fnServeHTTP+" | body parsed once from the request", w.pos(s.RetPos), "request body is not parsed exactly once from r.Body")
-			continue
-		}
-		status := ""
-		if len(whs) == 1 {
-			status, _ = constInt(whs[0].Args[len(whs[0].Args)-1])
-		}
-		if failed(s, pb[0]) {
-			nPre++
-			r.Check(status == "400" && len(hu) == 0, ruleE, fnServeHTTP+" | malformed body answered 400 without reaching the witness", w.pos(s.RetPos), "a body that does not parse is answered "+status+" or still handed to the witness")
-			continue
-		}
-		if !okBefore(s, pb[0], 0) {
-			r.Fail(ruleE, fnServeHTTP+" | parse error checked", w.pos(pb[0].Pos), "parseBody's error is not examined")
-			continue
-		}
-		if len(hu) == 0 {
-			// a pre-check refused: which one?
-			nPre++
-			lk := eventsOfKind(s, "mapread")
-			if len(lk) == 1 && lk[0].Recv == fieldByType(recv, "map[string]config.Log") {
-				k, found, _ := boolFact(s, mk("lookup", "ok", 0, nil, lk[0].Recv, lk[0].Args[0]))
-				r.Check(k && !found && status == "404", ruleE, fnServeHTTP+" | unknown origin answered 404", w.pos(s.RetPos), "an origin that is not configured is answered "+status)
-			} else {
-				r.Check(status == "400", ruleE, fnServeHTTP+" | checkpoint without a first line answered 400", w.pos(s.RetPos), "a checkpoint that cannot be split into origin line and rest is answered "+status)
-			}
-			continue
-		}
-		// handleUpdate reached: its arguments
-		h := hu[0]
-		lk := eventsOfKind(s, "mapread")
-		good := len(h.Args) == 6 && len(lk) == 1
-		var idc []Event
-		if good {
-			idc = calls(s, cLogID)
-			good = len(idc) == 1 && lk[0].Args[0] == idc[0].Res && h.Args[1] == idc[0].Res
-		}
-		if good {
-			// the origin line is the first element of SplitN(string(cp), "\n", 2) under len == 2
-			sp := calls(s, "strings.SplitN", "strings.Cut")
-			good = len(sp) == 1 && mentions(sp[0].Args[0], res(pb[0], 2)) && mentions(idc[0].Args[0], sp[0].Res)
-			if good && sp[0].Callee == "strings.SplitN" {
-				nl, _ := constInt(sp[0].Args[1])
-				good = nl == "\"\\n\""
-			}
-		}
-		if good {
-			entry := mk("lookup", "val", 0, nil, lk[0].Recv, idc[0].Res)
-			good = h.Args[2] == mk("field", "Origin", 0, nil, entry) && h.Args[3] == res(pb[0], 0) && h.Args[4] == res(pb[0], 2) && h.Args[5] == res(pb[0], 1)
-			if k, found, _ := boolFact(s, mk("lookup", "ok", 0, nil, lk[0].Recv, idc[0].Res)); !(k && found) {
-				good = false
-			}
-		}
-		r.Check(good, ruleE, fnServeHTTP+" | witness asked with (ID(first line), configured origin, parsed old size, checkpoint, proof)", w.pos(h.Pos), "handleUpdate is not called with the log ID of the checkpoint's first line, that log's configured origin and parseBody's results unmodified: "+short(fmt.Sprint(h.Args)))
-	}
-	if n429 == 0 {
-		r.Fail(ruleB, fnServeHTTP+" | push-back path exists", "", "no path answers 429 when the limiter refuses")
-	}
-	if nPre < 3 {
-		r.Undecided(ruleE, fnServeHTTP+" | pre-checks", "", fmt.Sprintf("only %d pre-check refusals found (expected: malformed body, no first line, unknown origin)", nPre))
-	}
-}
 
 // ---------------------------------------------------------------- C11: parseBody
 
